@@ -4,7 +4,7 @@ C14 — helper lemmas about the fault-aware semantics (Kap/Model/C14Fault.lean):
   B. the running-state invariant survives a fault in ANY transaction (per DAO call, per sub-step, per handler);
   C. what a failed transaction leaves behind, per handler (closed forms).
 -/
-import Kap.Proofs.C14Inv
+import Kap.Proofs.C14Full
 import Kap.Model.C14Fault
 set_option linter.unusedSimpArgs false
 set_option linter.unusedVariables false
@@ -734,5 +734,489 @@ theorem handleF_inv (env : Env) (fail : List String) (fault : Option Nat) (w : W
   · exact handle_inv Variant.fixed env fail w _ h
   · exact deleteTemplateF_inv ⟨w, fault, false⟩ _ h
   · exact handle_inv Variant.fixed env fail w _ h
+
+/-! ## C. What a failed transaction leaves behind -/
+
+/-- Agreement on store, executing set and transaction count, WHATEVER the fault oracle says. -/
+structure Sim0 (x : FW) (w : World) : Prop where
+  store : x.w.store = w.store
+  exec : x.w.exec = w.exec
+  ntx : x.w.ntx = w.ntx
+
+theorem Sim0.rfl (x : FW) : Sim0 x x.w := ⟨_root_.rfl, _root_.rfl, _root_.rfl⟩
+
+/-- A transaction that is not the failing one commits. -/
+theorem Sim0.tx {x : FW} {w : World} (h : Sim0 x w) (f : Store → Store) (hk : x.fault ≠ some (x.w.ntx + 1)) :
+    Sim0 (x.tx f) (w.tx f) ∧ (x.tx f).err = false := by
+  have he : (x.tx f).err = false := by rw [FW.tx_err]; simp [hk]
+  refine ⟨⟨?_, ?_, ?_⟩, he⟩
+  · rw [FW.tx_store, he]; simp [h.store]
+  · simp [h.exec]
+  · simp [World.tx, h.ntx]
+
+/-- A transaction that writes nothing (saveLastError, snapshots.Delete) leaves the same file whether it fails or not. -/
+theorem Sim0.tx_id {x : FW} {w : World} (h : Sim0 x w) : Sim0 (x.tx (fun s => s)) (w.tx (fun s => s)) :=
+  ⟨by simp [h.store], by simp [h.exec], by simp [World.tx, h.ntx]⟩
+
+theorem Sim0.note {x : FW} {w : World} (h : Sim0 x w) (a b : String) : Sim0 (x.note a) (w.note b) :=
+  ⟨by simp [h.store], by simp [h.exec], by rw [FW.note_w, note_ntx, note_ntx]; exact h.ntx⟩
+theorem Sim0.noteL {x : FW} {w : World} (h : Sim0 x w) (a : String) : Sim0 (x.note a) w :=
+  ⟨by simp [h.store], by simp [h.exec], by rw [FW.note_w, note_ntx]; exact h.ntx⟩
+theorem Sim0.noteR {x : FW} {w : World} (h : Sim0 x w) (b : String) : Sim0 x (w.note b) :=
+  ⟨by simp [h.store], by simp [h.exec], by rw [note_ntx]; exact h.ntx⟩
+theorem Sim0.setExec {x : FW} {w : World} (h : Sim0 x w) (i : String) (b : Bool) : Sim0 (x.setExec i b) (w.setExec i b) :=
+  ⟨h.store, by simp [World.setExec, h.exec], h.ntx⟩
+theorem Sim0.ite {c : Prop} [Decidable c] {x x' : FW} {w w' : World} (h : Sim0 x w) (h' : Sim0 x' w') :
+    Sim0 (if c then x else x') (if c then w else w') := by
+  split
+  · exact h
+  · exact h'
+theorem Sim0.view {x : FW} {w : World} (h : Sim0 x w) : x.w.view = w.view := by
+  unfold World.view; rw [h.store, h.exec]
+
+theorem saveLastErrorF_sim0 {x : FW} {w : World} (h : Sim0 x w) (id : String) :
+    Sim0 (saveLastErrorF x id) (saveLastError w id) := by
+  unfold saveLastErrorF saveLastError
+  rw [h.store]
+  split
+  · exact h.tx_id
+  · exact h
+
+/-- Starting a task only runs saveLastError transactions, whose errors are ignored: under ANY fault it is the model. -/
+theorem startTaskF_sim0 {x : FW} {w : World} (h : Sim0 x w) (env : Env) (fail : List String) (id : String) (t : Task) :
+    Sim0 (startTaskF env fail x id t).1 (startTask env fail w id t).1 ∧
+    (startTaskF env fail x id t).2 = (startTask env fail w id t).2 := by
+  unfold startTaskF startTask
+  split
+  · exact ⟨h.note _ _, rfl⟩
+  · split
+    · exact ⟨(saveLastErrorF_sim0 (saveLastErrorF_sim0 h id) id).note _ _, rfl⟩
+    · exact ⟨((saveLastErrorF_sim0 h id).setExec id true).note _ _, rfl⟩
+
+theorem startCreatedF_sim0 {x : FW} {w : World} (h : Sim0 x w) (env : Env) (fail : List String) (id : String) (t : Task) :
+    Sim0 (startCreatedF env fail x id t).1
+      (if t.enabled then
+        (if (startTask env fail w id t).2 then ((startTask env fail w id t).1.note "create-enabled", Resp.ok)
+         else ((startTask env fail w id t).1.note "create-start-failed", Resp.fail))
+       else (w.note "create-disabled", Resp.ok)).1 ∧
+    (startCreatedF env fail x id t).2 =
+      (if t.enabled then
+        (if (startTask env fail w id t).2 then ((startTask env fail w id t).1.note "create-enabled", Resp.ok)
+         else ((startTask env fail w id t).1.note "create-start-failed", Resp.fail))
+       else (w.note "create-disabled", Resp.ok)).2 := by
+  unfold startCreatedF
+  obtain ⟨h1, h2⟩ := startTaskF_sim0 h env fail id t
+  split
+  · rw [h2]
+    split
+    · exact ⟨h1.note _ _, rfl⟩
+    · exact ⟨h1.note _ _, rfl⟩
+  · exact ⟨h.note _ _, rfl⟩
+
+theorem finishUpdateF_sim0 {x : FW} {w : World} (h : Sim0 x w) (env : Env) (fail : List String) (id newId : String)
+    (orig upd : Task) :
+    (¬ (restartRenamed env fail w id newId orig upd).2 = true →
+      Sim0 (finishUpdateF env fail x id newId orig upd).1 (restartRenamed env fail w id newId orig upd).1 ∧
+      (finishUpdateF env fail x id newId orig upd).2 = .fail) ∧
+    ((restartRenamed env fail w id newId orig upd).2 = true →
+      Sim0 (finishUpdateF env fail x id newId orig upd).1
+        (applyStatus env fail (restartRenamed env fail w id newId orig upd).1 id newId orig upd).1 ∧
+      (finishUpdateF env fail x id newId orig upd).2 =
+        (applyStatus env fail (restartRenamed env fail w id newId orig upd).1 id newId orig upd).2) := by
+  unfold finishUpdateF restartRenamed
+  split
+  · rename_i hc
+    obtain ⟨hne, hoe, hue⟩ := hc
+    obtain ⟨h1, h2⟩ := startTaskF_sim0 (h.setExec id false) env fail newId upd
+    have h2' : (startTaskF env fail (x.setExec id false) newId upd).2 = (startTask env fail (stopTask w id) newId upd).2 := h2
+    have h1' : Sim0 (startTaskF env fail (x.setExec id false) newId upd).1 (startTask env fail (stopTask w id) newId upd).1 := h1
+    rw [h2']
+    refine ⟨fun hn => ?_, fun hy => ?_⟩
+    · simp only at hn
+      rw [if_neg hn]
+      exact ⟨h1'.note _ _, rfl⟩
+    · simp only at hy
+      rw [if_pos hy]
+      unfold applyStatus
+      simp only [hoe, hue, bne_self_eq_false, Bool.false_eq_true, if_false, if_true]
+      exact ⟨(h1'.note _ _).noteR _, trivial⟩
+  · rename_i hc
+    refine ⟨fun hn => absurd rfl hn, fun _ => ?_⟩
+    unfold applyStatus
+    split
+    · split
+      · obtain ⟨h1, h2⟩ := startTaskF_sim0 h env fail newId upd
+        rw [h2]
+        split
+        · exact ⟨h1.note _ _, rfl⟩
+        · exact ⟨h1.note _ _, rfl⟩
+      · exact ⟨(h.setExec id false).note _ _, rfl⟩
+    · exact ⟨h.note _ _, rfl⟩
+
+theorem finishUpdateF_sim0' {x : FW} {w : World} (h : Sim0 x w) (env : Env) (fail : List String) (id newId : String)
+    (orig upd : Task) :
+    Sim0 (finishUpdateF env fail x id newId orig upd).1 (finishUpdate env fail w id newId orig upd).1 ∧
+    (finishUpdateF env fail x id newId orig upd).2 = (finishUpdate env fail w id newId orig upd).2 := by
+  unfold finishUpdate
+  obtain ⟨h1, h2⟩ := finishUpdateF_sim0 h env fail id newId orig upd
+  cases hr : (restartRenamed env fail w id newId orig upd).2
+  · simp only [Bool.not_false, if_true]
+    exact h1 (by rw [hr]; simp)
+  · simp only [Bool.not_true, Bool.false_eq_true, if_false]
+    exact h2 hr
+
+@[simp] theorem FW.note_ntx (x : FW) (b : String) : (x.note b).w.ntx = x.w.ntx := by rw [FW.note_w, Kap.C14.note_ntx]
+theorem wsetExec_ntx (w : World) (i : String) (b : Bool) : (w.setExec i b).ntx = w.ntx := rfl
+@[simp] theorem FW.setExec_ntx (x : FW) (i : String) (b : Bool) : (x.setExec i b).w.ntx = x.w.ntx := rfl
+
+theorem createF_fault (x : FW) (id : String) (t : Task) : (createF x id t).1.fault = x.fault := by
+  unfold createF; split <;> simp
+theorem createF_ntx (x : FW) (id : String) (t : Task) : (createF x id t).1.w.ntx = x.w.ntx + 1 := by
+  unfold createF; split <;> simp
+theorem assocF_fault (x : FW) (m k : String) (b : Bool) : (assocF x m k b).1.fault = x.fault := by simp [assocF]
+theorem assocF_ntx (x : FW) (m k : String) (b : Bool) : (assocF x m k b).1.w.ntx = x.w.ntx + 1 := by simp [assocF]
+theorem assocF_ok (x : FW) (m k : String) (b : Bool) : (assocF x m k b).2 = !decide (x.fault = some (x.w.ntx + 1)) := by
+  simp [assocF, FW.tx_err]
+theorem deleteF_ok (x : FW) (id : String) : (deleteF x id).2 = !decide (x.fault = some (x.w.ntx + 1)) := by
+  simp [deleteF, FW.tx_err]
+theorem createF_failed (x : FW) (id : String) (t : Task) (hk : x.fault = some (x.w.ntx + 1)) : (createF x id t).2 = false := by
+  unfold createF; split
+  · rfl
+  · simp [FW.tx_err, hk]
+theorem replaceF_failed (x : FW) (id : String) (t : Task) (hk : x.fault = some (x.w.ntx + 1)) : (replaceF x id t).2 = false := by
+  unfold replaceF; split
+  · simp [FW.tx_err, hk]
+  · rfl
+
+theorem createF_sim0 {x : FW} {w : World} (h : Sim0 x w) (id : String) (t : Task) (hk : x.fault ≠ some (x.w.ntx + 1)) :
+    Sim0 (createF x id t).1 (tasksCreate w id t).1 ∧ (createF x id t).2 = (tasksCreate w id t).2 := by
+  unfold createF tasksCreate
+  rw [h.store]
+  split
+  · exact ⟨h.tx_id, _root_.rfl⟩
+  · exact ⟨(h.tx _ hk).1, by simp [(h.tx _ hk).2]⟩
+
+theorem assocF_sim0 {x : FW} {w : World} (h : Sim0 x w) (m k : String) (b : Bool) (hk : x.fault ≠ some (x.w.ntx + 1)) :
+    Sim0 (assocF x m k b).1 (w.tx (·.setAssoc m k b)) ∧ (assocF x m k b).2 = true := by
+  unfold assocF
+  exact ⟨(h.tx _ hk).1, by simp [(h.tx _ hk).2]⟩
+
+/-- **handleCreateTask under a fault** (validation passed, ID free, `w.ntx = 0`): transaction 1 is tasks.Create,
+transaction 2 — for a templated task — AssociateTask; every later one is a saveLastError inside startTask.
+ * k = 1: nothing is stored, 500;
+ * k = 2, templated: the task IS stored, NOT associated with its template and NOT started (even when enabled), 500;
+ * any other k: the request behaves exactly as without a fault (the failed write was at most a saveLastError). -/
+theorem createCommitF_fault (env : Env) (fail : List String) (w : World) (id : String) (t : Task) (templated : Bool)
+    (k : Nat) (h0 : w.ntx = 0) (hn : w.store.tasks id = none) :
+    (k = 1 → (createCommitF env fail ⟨w, some k, false⟩ id t templated).1.w.view = w.view ∧
+             (createCommitF env fail ⟨w, some k, false⟩ id t templated).2 = .fail) ∧
+    (k = 2 → templated = true →
+             (createCommitF env fail ⟨w, some k, false⟩ id t templated).1.w.view = w.view.put id t ∧
+             (createCommitF env fail ⟨w, some k, false⟩ id t templated).2 = .fail) ∧
+    (k ≠ 1 → ¬ (k = 2 ∧ templated = true) →
+             (createCommitF env fail ⟨w, some k, false⟩ id t templated).1.w.view =
+               (createCommit Variant.fixed env fail w id t templated).1.view ∧
+             (createCommitF env fail ⟨w, some k, false⟩ id t templated).2 =
+               (createCommit Variant.fixed env fail w id t templated).2) := by
+  have hx0 : Sim0 ⟨w, some k, false⟩ w := ⟨_root_.rfl, _root_.rfl, _root_.rfl⟩
+  refine ⟨fun h1 => ?_, fun h2 ht => ?_, fun h1 h2 => ?_⟩
+  · subst h1
+    have hc := createF_failed ⟨w, some 1, false⟩ id t (by simp [h0])
+    have hv := createF_view ⟨w, some 1, false⟩ id t
+    unfold createCommitF
+    simp only [hc, Bool.not_false, if_true, FW.note_w, note_view]
+    rw [hv, hc]; simp
+  · subst h2; subst ht
+    obtain ⟨hc1, hc2⟩ := createF_sim0 hx0 id t (by simp [h0])
+    have hok : (tasksCreate w id t).2 = true := by rw [tasksCreate_ok, hn]; rfl
+    rw [hok] at hc2
+    have ha : (assocF (createF ⟨w, some 2, false⟩ id t).1 t.tmpl id true).2 = false := by
+      rw [assocF_ok, createF_fault, createF_ntx]; simp [h0]
+    have hav := assocF_view (createF ⟨w, some 2, false⟩ id t).1 t.tmpl id true
+    unfold createCommitF
+    simp only [hc2, ha, Bool.not_true, Bool.not_false, Bool.and_true, Bool.false_eq_true, if_false, if_true,
+      FW.note_w, note_view]
+    rw [hav, ha, hc1.view, tasksCreate_view, hn]; simp
+  · obtain ⟨hc1, hc2⟩ := createF_sim0 hx0 id t (by simp [h0]; omega)
+    have hok : (tasksCreate w id t).2 = true := by rw [tasksCreate_ok, hn]; rfl
+    have hkk : (createF ⟨w, some k, false⟩ id t).1.fault ≠ some ((createF ⟨w, some k, false⟩ id t).1.w.ntx + 1) ∨ templated = false := by
+      cases templated
+      · exact Or.inr _root_.rfl
+      · refine Or.inl ?_
+        rw [createF_fault, createF_ntx]; simp [h0]
+        intro hk; exact h2 ⟨hk, _root_.rfl⟩
+    unfold createCommitF createCommit
+    simp only [Variant.fixed, Bool.not_false, Bool.and_true]
+    rw [hc2, hok]
+    simp only [Bool.not_true, Bool.false_eq_true, if_false]
+    cases templated
+    · simp only [Bool.false_and, Bool.false_eq_true, if_false]
+      obtain ⟨r1, r2⟩ := startCreatedF_sim0 hc1 env fail id t
+      exact ⟨r1.view, r2⟩
+    · have hk2 := hkk.resolve_right (by simp)
+      obtain ⟨ha1, ha2⟩ := assocF_sim0 hc1 t.tmpl id true hk2
+      simp only [ha2, Bool.not_true, Bool.and_false, Bool.false_eq_true, if_false, if_true]
+      obtain ⟨r1, r2⟩ := startCreatedF_sim0 (ha1.note "create-templated" "create-templated") env fail id t
+      exact ⟨r1.view, r2⟩
+
+/-- The view deleteTask leaves when transaction `k` fails: the association is dropped unless k = 2 hit
+DisassociateTask (logged, the handler goes on), the task is stopped when it was enabled, and the record is removed
+unless `k` hit tasks.Delete (the last transaction: 3 for a templated task, else 2). -/
+def delViewF (V : View) (id : String) (t : Task) (k : Nat) : View :=
+  if k = (if t.tmpl ≠ "" then 3 else 2) then
+    (if t.enabled = true then (if t.tmpl ≠ "" ∧ k ≠ 2 then V.setAssoc t.tmpl id false else V).setExec id false
+     else (if t.tmpl ≠ "" ∧ k ≠ 2 then V.setAssoc t.tmpl id false else V))
+  else
+    (if t.enabled = true then (if t.tmpl ≠ "" ∧ k ≠ 2 then V.setAssoc t.tmpl id false else V).setExec id false
+     else (if t.tmpl ≠ "" ∧ k ≠ 2 then V.setAssoc t.tmpl id false else V)).del id
+
+/-- **deleteTask under a fault**: every failed transaction removes exactly its OWN effect, all later steps still
+happen; only the error of tasks.Delete is reported (500). -/
+theorem deleteTaskF_fault (w : World) (id : String) (t : Task) (k : Nat) (h0 : w.ntx = 0) (ht : w.store.tasks id = some t) :
+    (deleteTaskF ⟨w, some k, false⟩ id).1.w.view = delViewF w.view id t k ∧
+    (deleteTaskF ⟨w, some k, false⟩ id).2 = if k = (if t.tmpl ≠ "" then 3 else 2) then .fail else .ok := by
+  unfold deleteTaskF
+  rw [FW.tx_id_store]
+  simp only [ht]
+  by_cases htm : t.tmpl ≠ ""
+  · simp only [htm, ne_eq, not_false_eq_true, if_true]
+    by_cases hen : t.enabled = true
+    · simp only [hen, if_true]
+      rw [deleteF_view, deleteF_ok]
+      simp only [FW.note_fault, FW.setExec_fault, assocF_fault, FW.tx_fault, FW.note_ntx, FW.setExec_ntx, assocF_ntx,
+        FW.tx_ntx, h0, FW.note_w, note_view, Kap.C14.note_ntx, wsetExec_ntx, FW.setExec_w, setExec_view, assocF_view, assocF_ok, FW.tx_id_view]
+      unfold delViewF
+      simp only [htm, ne_eq, not_false_eq_true, if_true, hen, true_and]
+      by_cases h2 : k = 2 <;> by_cases h3 : k = 3 <;> simp [h2, h3] <;> omega
+    · simp only [hen, Bool.false_eq_true, if_false]
+      rw [deleteF_view, deleteF_ok]
+      simp only [FW.note_fault, FW.setExec_fault, assocF_fault, FW.tx_fault, FW.note_ntx, FW.setExec_ntx, assocF_ntx,
+        FW.tx_ntx, h0, FW.note_w, note_view, Kap.C14.note_ntx, wsetExec_ntx, FW.setExec_w, setExec_view, assocF_view, assocF_ok, FW.tx_id_view]
+      unfold delViewF
+      simp only [htm, ne_eq, not_false_eq_true, if_true, hen, true_and, Bool.false_eq_true, if_false]
+      by_cases h2 : k = 2 <;> by_cases h3 : k = 3 <;> simp [h2, h3] <;> omega
+  · have htm' : t.tmpl = "" := by simpa using htm
+    simp only [htm, if_false]
+    by_cases hen : t.enabled = true
+    · simp only [hen, if_true]
+      rw [deleteF_view, deleteF_ok]
+      simp only [FW.note_fault, FW.setExec_fault, FW.tx_fault, FW.note_ntx, FW.setExec_ntx,
+        FW.tx_ntx, h0, FW.note_w, note_view, Kap.C14.note_ntx, wsetExec_ntx, FW.setExec_w, setExec_view, FW.tx_id_view]
+      unfold delViewF
+      simp only [htm, if_false, hen, if_true, false_and]
+      by_cases h2 : k = 2 <;> simp [h2]
+    · simp only [hen, Bool.false_eq_true, if_false]
+      rw [deleteF_view, deleteF_ok]
+      simp only [FW.note_fault, FW.setExec_fault, FW.tx_fault, FW.note_ntx, FW.setExec_ntx,
+        FW.tx_ntx, h0, FW.note_w, note_view, Kap.C14.note_ntx, wsetExec_ntx, FW.setExec_w, setExec_view, FW.tx_id_view]
+      unfold delViewF
+      simp only [htm, if_false, hen, Bool.false_eq_true, false_and]
+      by_cases h2 : k = 2 <;> simp [h2]
+
+/-- Without a fault position (`k` = 0, or beyond the last transaction) `delViewF` is the model's delete. -/
+theorem delViewF_nofault (w : World) (id : String) (t : Task) (k : Nat) (ht : w.store.tasks id = some t)
+    (h2 : k ≠ 2) (h3 : k ≠ 3) : delViewF w.view id t k = (deleteTask w id).1.view := by
+  rw [deleteTask_view_some w id t ht]
+  unfold delViewF
+  have : ¬ k = (if t.tmpl ≠ "" then 3 else 2) := by split <;> assumption
+  simp only [this, if_false, h2, ne_eq, not_false_eq_true, and_true]
+
+/-! ### update under a fault -/
+
+/-- Closed form of the running-state part of an update, from ANY in-flight world. -/
+theorem finishUpdate_closed (env : Env) (fail : List String) (W2 : World) (id newId : String) (orig upd : Task) :
+    (finishUpdate env fail W2 id newId orig upd).2 =
+      (if upd.enabled = true ∧ (orig.enabled = false ∨ id ≠ newId) ∧ startOK env fail newId upd = false then .fail else .ok) ∧
+    (finishUpdate env fail W2 id newId orig upd).1.view =
+      { W2.view with exec := updExec W2.exec id newId orig.enabled upd.enabled (startOK env fail newId upd) } := by
+  unfold finishUpdate
+  have hRv := restartRenamed_view env fail W2 id newId orig upd
+  have hRo := restartRenamed_ok env fail W2 id newId orig upd
+  generalize restartRenamed env fail W2 id newId orig upd = R at hRv hRo ⊢
+  have hAv := applyStatus_view env fail R.1 id newId orig upd
+  have hAr := applyStatus_resp_eq env fail R.1 id newId orig upd
+  rw [hRv] at hAv
+  generalize applyStatus env fail R.1 id newId orig upd = A at hAv hAr ⊢
+  by_cases hid : id = newId
+  · subst hid
+    cases hoe : orig.enabled <;> cases hue : upd.enabled <;> cases hk : startOK env fail id upd <;>
+      simp [hoe, hue, hk] at hRv hRo hAv hAr <;> simp [hRo, hAr, hAv, hRv, hoe, hue, hk] <;>
+      (apply View.ext' <;> first | rfl | (funext i; simp [updExec, hoe, hue, hk, setExec_exec]))
+  · cases hoe : orig.enabled <;> cases hue : upd.enabled <;> cases hk : startOK env fail newId upd <;>
+      simp [hoe, hue, hk, hid] at hRv hRo hAv hAr <;> simp [hRo, hAr, hAv, hRv, hoe, hue, hk, hid] <;>
+      (apply View.ext' <;> first | rfl | (funext i; simp [updExec, hoe, hue, hk, hid, setExec_exec]))
+
+/-- … and the same closed form under ANY fault: the running-state part only runs saveLastError transactions. -/
+theorem finishUpdateF_closed (env : Env) (fail : List String) (X : FW) (id newId : String) (orig upd : Task) :
+    (finishUpdateF env fail X id newId orig upd).2 =
+      (if upd.enabled = true ∧ (orig.enabled = false ∨ id ≠ newId) ∧ startOK env fail newId upd = false then .fail else .ok) ∧
+    (finishUpdateF env fail X id newId orig upd).1.w.view =
+      { X.w.view with exec := updExec X.w.exec id newId orig.enabled upd.enabled (startOK env fail newId upd) } := by
+  obtain ⟨h1, h2⟩ := finishUpdateF_sim0' (Sim0.rfl X) env fail id newId orig upd
+  obtain ⟨c1, c2⟩ := finishUpdate_closed env fail X.w id newId orig upd
+  exact ⟨h2.trans c1, h1.view.trans c2⟩
+
+theorem storeDefinitionF_first_fault (x : FW) (id newId : String) (upd : Task) (hk : x.fault = some (x.w.ntx + 1)) :
+    (storeDefinitionF x id newId upd).2 = false := by
+  unfold storeDefinitionF
+  split
+  · rw [if_neg (by rw [createF_failed x newId upd hk]; simp)]
+  · exact replaceF_failed x id upd hk
+
+theorem replaceF_ok_later (x : FW) (id : String) (t orig : Task) (ho : x.w.store.tasks id = some orig)
+    (hk : x.fault ≠ some (x.w.ntx + 1)) : (replaceF x id t).2 = true := by
+  unfold replaceF; rw [ho]; simp [FW.tx_err, hk]
+
+theorem createF_ok_later (x : FW) (id : String) (t : Task) (hn : x.w.store.tasks id = none)
+    (hk : x.fault ≠ some (x.w.ntx + 1)) : (createF x id t).2 = true := by
+  unfold createF; rw [hn]; simp [FW.tx_err, hk]
+
+/-- The stored tasks after "store the definition" when its FIRST transaction is not the failing one: the new
+record is stored; during a rename the old record is removed unless transaction 2 (Delete(old), error only logged)
+failed. -/
+theorem storeDefinitionF_later (x : FW) (id newId : String) (upd orig : Task) (ho : x.w.store.tasks id = some orig)
+    (hfree : id ≠ newId → x.w.store.tasks newId = none) (hk : x.fault ≠ some (x.w.ntx + 1)) :
+    (storeDefinitionF x id newId upd).2 = true ∧
+    (storeDefinitionF x id newId upd).1.w.view =
+      (if id ≠ newId then
+        (if x.fault = some (x.w.ntx + 2) then x.w.view.put newId upd else (x.w.view.put newId upd).del id)
+       else x.w.view.put id upd) := by
+  unfold storeDefinitionF
+  split
+  · rename_i hne
+    have hc := createF_ok_later x newId upd (hfree hne) hk
+    rw [if_pos hc]
+    refine ⟨_root_.rfl, ?_⟩
+    rw [FW.note_w, note_view, deleteF_view, deleteF_ok, createF_view, hc, createF_fault, createF_ntx]
+    by_cases h2 : x.fault = some (x.w.ntx + 2)
+    · simp [h2]
+    · simp [h2]
+  · have hr := replaceF_ok_later x id upd orig ho hk
+    refine ⟨hr, ?_⟩
+    rw [replaceF_view, hr]; simp
+
+/-- **handleUpdateTask under a fault** (validation passed, `w.ntx = 0`, the new ID is free): transaction 1 is
+tasks.Create(new) / tasks.Replace; for a rename transaction 2 is tasks.Delete(old) (error only logged); then the
+association moves (errors answered 500 AFTER the running state was adjusted); the rest are saveLastError writes.
+ * k = 1: nothing changes, 500;
+ * k ≠ 1: the executing set is EXACTLY the one the fault-free update leaves (`updExec`); the new record is stored;
+   the old ID of a rename is removed unless k = 2 (then both IDs stay stored, the old one stopped); templates
+   untouched; the answer is the fault-free one or 500 (an association write failed). -/
+theorem updateCommitF_fault (env : Env) (fail : List String) (w : World) (id newId : String) (orig upd : Task) (m : String)
+    (k : Nat) (h0 : w.ntx = 0) (ho : w.store.tasks id = some orig) (hfree : id ≠ newId → w.store.tasks newId = none) :
+    (k = 1 → (updateCommitF env fail ⟨w, some k, false⟩ id newId orig upd m).1.w.view = w.view ∧
+             (updateCommitF env fail ⟨w, some k, false⟩ id newId orig upd m).2 = .fail) ∧
+    (k ≠ 1 →
+      (updateCommitF env fail ⟨w, some k, false⟩ id newId orig upd m).1.w.exec =
+        updExec w.exec id newId orig.enabled upd.enabled (startOK env fail newId upd) ∧
+      (updateCommitF env fail ⟨w, some k, false⟩ id newId orig upd m).1.w.store.tasks =
+        (fun i => if i = newId then some upd else if i = id then (if k = 2 then some orig else none) else w.store.tasks i) ∧
+      (updateCommitF env fail ⟨w, some k, false⟩ id newId orig upd m).1.w.store.tmpls = w.store.tmpls ∧
+      ((updateCommitF env fail ⟨w, some k, false⟩ id newId orig upd m).2 = .fail ∨
+       (updateCommitF env fail ⟨w, some k, false⟩ id newId orig upd m).2 =
+        (if upd.enabled = true ∧ (orig.enabled = false ∨ id ≠ newId) ∧ startOK env fail newId upd = false then .fail else .ok))) := by
+  refine ⟨fun h1 => ?_, fun h1 => ?_⟩
+  · subst h1
+    have hs := storeDefinitionF_first_fault ⟨w, some 1, false⟩ id newId upd (by simp [h0])
+    unfold updateCommitF
+    simp only [hs, Bool.not_false, if_true, FW.note_w, note_view]
+    exact ⟨storeDefinitionF_failed _ id newId upd hs, trivial⟩
+  · obtain ⟨hs, hv⟩ := storeDefinitionF_later ⟨w, some k, false⟩ id newId upd orig ho hfree (by simp [h0]; omega)
+    have hvt : (storeDefinitionF ⟨w, some k, false⟩ id newId upd).1.w.view.tasks =
+        (fun i => if i = newId then some upd else if i = id then (if k = 2 then some orig else none) else w.store.tasks i) := by
+      rw [hv]
+      funext i
+      by_cases hne : id = newId
+      · subst hne; simp [View.put]; split <;> simp_all
+      · have hne' : newId ≠ id := fun e => hne e.symm
+        simp only [hne, ne_eq, not_false_eq_true, if_true, h0]
+        by_cases h2 : k = 2
+        · subst h2
+          simp only [View.put, view_tasks, if_true]
+          by_cases hi : i = newId
+          · simp [hi]
+          · by_cases hi2 : i = id
+            · subst hi2; simp [hi, ho]
+            · simp [hi, hi2]
+        · have : ¬ (some k = some (0 + 2)) := by simp; omega
+          simp only [this, if_false, View.del, View.put, view_tasks, h2]
+          by_cases hi : i = newId
+          · subst hi; simp [hne']
+          · by_cases hi2 : i = id
+            · subst hi2; simp [hi, hne]
+            · simp [hi, hi2]
+    have hvm : (storeDefinitionF ⟨w, some k, false⟩ id newId upd).1.w.view.tmpls = w.store.tmpls := by
+      rw [hv]; split
+      · split <;> rfl
+      · rfl
+    have hve : (storeDefinitionF ⟨w, some k, false⟩ id newId upd).1.w.view.exec = w.exec := by
+      rw [hv]; split
+      · split <;> rfl
+      · rfl
+    unfold updateCommitF
+    simp only [hs, Bool.not_true, Bool.false_eq_true, if_false]
+    split
+    · -- the association moves
+      have hr := reassociateF_tasks (storeDefinitionF ⟨w, some k, false⟩ id newId upd).1 id orig m newId
+      have hrm : (reassociateF (storeDefinitionF ⟨w, some k, false⟩ id newId upd).1 id orig m newId).1.w.view.tmpls = w.store.tmpls := by
+        rw [← hvm]
+        unfold reassociateF
+        split
+        · rw [assocF_view]; split <;> rfl
+        · rw [FW.note_w, note_view, assocF_view]
+          have : ∀ X : FW, X.w.view.tmpls = (storeDefinitionF ⟨w, some k, false⟩ id newId upd).1.w.view.tmpls →
+              (if (assocF X m newId true).2 = true then X.w.view.setAssoc m newId true else X.w.view).tmpls =
+                (storeDefinitionF ⟨w, some k, false⟩ id newId upd).1.w.view.tmpls := by
+            intro X hX; split <;> exact hX
+          apply this
+          split
+          · rw [assocF_view]; split <;> rfl
+          · rfl
+      obtain ⟨c1, c2⟩ := finishUpdateF_closed env fail
+        (reassociateF (storeDefinitionF ⟨w, some k, false⟩ id newId upd).1 id orig m newId).1 id newId orig upd
+      have e1 := congrArg View.exec c2
+      have e2 := congrArg View.tasks c2
+      have e3 := congrArg View.tmpls c2
+      simp only [view_exec, view_tasks, view_tmpls] at e1 e2 e3 hr hrm hvt hve
+      refine ⟨?_, ?_, ?_, ?_⟩
+      · rw [e1, hr.2, hve]
+      · rw [e2, hr.1, hvt]
+      · rw [e3, hrm]
+      · split
+        · exact Or.inr c1
+        · exact Or.inl _root_.rfl
+    · obtain ⟨c1, c2⟩ := finishUpdateF_closed env fail (storeDefinitionF ⟨w, some k, false⟩ id newId upd).1 id newId orig upd
+      have e1 := congrArg View.exec c2
+      have e2 := congrArg View.tasks c2
+      have e3 := congrArg View.tmpls c2
+      simp only [view_exec, view_tasks, view_tmpls] at e1 e2 e3 hvm hvt hve
+      exact ⟨by rw [e1, hve], by rw [e2, hvt], by rw [e3, hvm], Or.inr c1⟩
+
+/-! ### templates under a fault -/
+
+theorem tmplCreateF_failed (x : FW) (id s : String) (hk : x.fault = some (x.w.ntx + 1)) : (tmplCreateF x id s).2 = false := by
+  unfold tmplCreateF; split
+  · rfl
+  · simp [FW.tx_err, hk]
+
+/-- handleCreateTemplate / handleDeleteTemplate have one transaction: when it fails nothing changes and the answer is
+500 (for a create: unless the request was rejected by validation anyway). -/
+theorem templateF_fault (env : Env) (w : World) (id s : String) (h0 : w.ntx = 0) :
+    ((createTemplateF env ⟨w, some 1, false⟩ id s).1.w.view = w.view ∧
+     (createTemplateF env ⟨w, some 1, false⟩ id s).2 ≠ .ok) ∧
+    ((deleteTemplateF ⟨w, some 1, false⟩ id).1.w.view = w.view ∧ (deleteTemplateF ⟨w, some 1, false⟩ id).2 = .fail) := by
+  constructor
+  · unfold createTemplateF
+    split
+    · exact ⟨by rw [FW.note_w, note_view], by simp⟩
+    · split
+      · exact ⟨by rw [FW.note_w, note_view], by simp⟩
+      · have hc := tmplCreateF_failed ⟨w, some 1, false⟩ id s (by simp [h0])
+        rw [FW.note_w, note_view, tmplCreateF_view, hc]
+        simp
+  · unfold deleteTemplateF
+    have hd : (tmplDeleteF ⟨w, some 1, false⟩ id).2 = false := by simp [tmplDeleteF, FW.tx_err, h0]
+    rw [FW.note_w, note_view, tmplDeleteF_view, hd]
+    simp
 
 end Kap.C14
